@@ -342,6 +342,9 @@ func (m *machine) genPoolOp(t *rapid.T, idx int, kind string) fop {
 		if len(o.Denoms) == 0 {
 			return fop{K: "harvest", Who: 1, Pool: idx}
 		}
+		if m.unsorted && rapid.Bool().Draw(t, "descending") {
+			o.Rev = true
+		}
 		return o
 	}
 }
